@@ -119,6 +119,18 @@ Proof.
     + intros p [<-|Hp]; [exact Hi|now apply Ri].
 Qed.
 
+(** a bitmap built by Of from positions below T < 2^31 has fewer than 2^31 words *)
+Lemma of_words_small T idxs : 1 <= T < 2 ^ 31 -> (forall p, In p idxs -> 0 <= p < T) ->
+  words_for (of_bits idxs None) < 2 ^ 31.
+Proof.
+  intros HT Ri. unfold words_for, of_bits.
+  assert (Hb : match idxs with [] => 0 | _ :: _ => last idxs 0 + 1 end <= T).
+  { destruct idxs as [|a l]; [lia|].
+    pose proof (last_lt (a :: l) 0 T (fun p Hp => proj2 (Ri p Hp)) ltac:(lia)). lia. }
+  change (2 ^ 31) with 2147483648 in *.
+  apply Z.div_lt_upper_bound; lia.
+Qed.
+
 Lemma roundtrip_correct T ss idxs bm : 1 <= T < 2 ^ 31 ->
   sub_nodes T (Z.to_nat (Height T)) ss ->
   map (fun q => PathToIndex T (enc (Z.to_nat (Height T)) q)) ss = map Some idxs ->
@@ -136,13 +148,7 @@ Proof.
   subst idxs'.
   destruct (Of_ascending idxs None Si (fun p Hp => proj1 (Ri p Hp))) as (r & Er & _ & Hlen & Hones).
   rewrite EOf in Er. injection Er as <-.
-  assert (Hl : zlen bm < 2 ^ 31).
-  { rewrite Hlen. unfold words_for, of_bits.
-    assert (Hb : match idxs with [] => 0 | _ :: _ => last idxs 0 + 1 end <= T).
-    { destruct idxs as [|a l]; [lia|].
-      pose proof (last_lt (a :: l) 0 T (fun p Hp => proj2 (Ri p Hp)) ltac:(lia)). lia. }
-    change (2 ^ 31) with 2147483648 in *.
-    apply Z.div_lt_upper_bound; lia. }
+  assert (Hl : zlen bm < 2 ^ 31) by (rewrite Hlen; exact (of_words_small T idxs HT Ri)).
   rewrite decode_by_index by assumption. fold h. f_equal.
   destruct Hsub as (Hss & Hin).
   apply sasc_ext.
@@ -189,3 +195,19 @@ Lemma roundtrip_filter T f : 1 <= T < 2 ^ 31 ->
     map (fun q => PathToIndex T (enc h q)) ss = map Some idxs /\
     Of idxs None = Some bm /\ Decode T bm = Some (map (enc h) ss).
 Proof. intros HT h ss. apply roundtrip_total; [exact HT|apply filter_sub_nodes]. Qed.
+
+Lemma roundtrip_bm_len T ss idxs bm : 1 <= T < 2 ^ 31 ->
+  sub_nodes T (Z.to_nat (Height T)) ss ->
+  map (fun q => PathToIndex T (enc (Z.to_nat (Height T)) q)) ss = map Some idxs ->
+  Of idxs None = Some bm -> zlen bm < 2 ^ 31.
+Proof.
+  intros HT Hsub Eidx EOf.
+  destruct (sub_nodes_indices T ss HT Hsub) as (idxs' & E' & Si & Ri).
+  assert (idxs' = idxs).
+  { rewrite Eidx in E'. clear - E'. revert idxs' E'.
+    induction idxs as [|a l IH]; intros [|b m] E; cbn [map] in E; try discriminate; [reflexivity|].
+    injection E as -> E. f_equal. now apply IH. }
+  subst idxs'.
+  destruct (Of_ascending idxs None Si (fun p Hp => proj1 (Ri p Hp))) as (r & Er & _ & Hlen & _).
+  rewrite EOf in Er. injection Er as <-. rewrite Hlen. exact (of_words_small T idxs HT Ri).
+Qed.
